@@ -4,6 +4,7 @@ import CelloProofs.Lemmas.IterContainers
 import CelloProofs.Lemmas.IterTree
 import CelloProofs.Lemmas.IterViews
 import CelloProofs.Lemmas.IterSlice
+import CelloProofs.Lemmas.IterMutDenote
 
 namespace Cello.Iter
 
@@ -65,6 +66,15 @@ def specOf : Expr → Option (List Val)
   | .map e a b => match specOf e with
     | some l => some (l.map (testFun a b))
     | none => none
+  -- containers MUTATED before they are iterated: the sequence that the documented meaning of the history leaves
+  -- (List, Array: `LL.specRun` / `AR.specRun`); Table: the keys in the slots of the table the model of Table.c builds, in
+  -- slot order (a permutation of the keys of the finite map: `C11_table_mutated_lawful`); Tree: the in-order sequence
+  | .mlist init ops => some ((LL.specRun 0 init ops).1.map Val.int)
+  | .marray init ops => some ((AR.specRun init ops).1.map Val.int)
+  | .mtable init ops => match mtableOf init ops with
+    | some t => some ((occupied (tabSlots t)).map Val.int)
+    | none => none
+  | .mtree init ops => some ((mtreeOf init ops).root.inorder.map Val.int)
 def specOfList : List Expr → Option (List (List Val))
   | [] => some []
   | e :: es => match specOf e, specOfList es with
@@ -226,6 +236,30 @@ theorem denote_lawful : ∀ (e : Expr) (l : List Val), specOf e = some l →
       simp only [hs, Option.some.injEq] at h; subst h
       exact ⟨mapI I (testFun a b), by simp [denote, hd], map_lawfulAs _ _ hl,
         fun hh => by simp [mapI, hlen (by simpa [Expr.hasLen] using hh)]⟩
+  | .mlist init ops, l, h => by
+    simp only [specOf, Option.some.injEq] at h; subst h
+    obtain ⟨ll, xs, e, c, v⟩ := mlistOf_spec init ops
+    refine ⟨mapI (llI ll) Val.int, by simp [denote, e], ?_, fun _ => ?_⟩
+    · rw [← v]; exact map_lawfulAs _ _ (ll_lawfulAs ll xs c)
+    · simp [mapI, llI, c.count, ← v, LL.vals]
+  | .marray init ops, l, h => by
+    simp only [specOf, Option.some.injEq] at h; subst h
+    obtain ⟨a, e, c⟩ := marrayOf_spec init ops
+    refine ⟨mapI (arI a) Val.int, by simp [denote, e], map_lawfulAs _ _ (ar_lawfulAs a _ c), fun _ => ?_⟩
+    simp [mapI, arI, c.count]
+  | .mtable init ops, l, h => by
+    obtain ⟨t, e, r⟩ := mtableOf_spec init ops
+    simp only [specOf, e, Option.some.injEq] at h; subst h
+    obtain ⟨hl, hn, _⟩ := tabI_lawful t _ r
+    refine ⟨mapI (tabI t) Val.int, by simp [denote, e], map_lawfulAs _ _ hl, fun _ => ?_⟩
+    have := hl.len t.nitems rfl
+    simp [mapI, tabI, tableNI, this]
+  | .mtree init ops, l, h => by
+    simp only [specOf, Option.some.injEq] at h; subst h
+    have hc := mtreeOf_count init ops
+    refine ⟨mapI (rbI (mtreeOf init ops)) Val.int, by simp [denote],
+      map_lawfulAs _ _ (treeNI_lawfulAs _ _ hc), fun _ => ?_⟩
+    simp [mapI, rbI, treeNI, hc, T.size_eq_length]
 theorem denoteList_lawful : ∀ (es : List Expr) (ls : List (List Val)), specOfList es = some ls →
     ∃ Is, denoteList es = .ok Is ∧ All₂ (fun I l => LawfulAs I l) Is ls ∧
       (Expr.hasLenList es = true → All₂ (fun (I : Iterable Val) l => I.len = some l.length) Is ls)
